@@ -69,6 +69,10 @@ type Base struct {
 	ClockNeedsQuiet bool
 	// Horizon bounds simulated time (0 = unbounded): the clock never advances beyond Epoch+Horizon.
 	Horizon time.Duration
+	// FaultLog lists the injected faults of this history as features ("fault:update/jobs/status=conflict").
+	FaultLog []string
+	// StaticFeatures are scenario-level features (e.g. "foreign-pod").
+	StaticFeatures []string
 	// StaleSeen is sticky: resources that were stale during some work step of this history.
 	StaleSeen map[string]bool
 
@@ -242,12 +246,14 @@ func (b *Base) Features() []string {
 	for r := range b.StaleSeen {
 		f = append(f, "stale:"+r)
 	}
+	f = append(f, b.FaultLog...)
 	if b.FaultsUsed > 0 {
 		f = append(f, "fault")
 	}
 	if b.CrashesUsed > 0 {
 		f = append(f, "crash")
 	}
+	f = append(f, b.StaticFeatures...)
 	sort.Strings(f)
 	return f
 }
@@ -305,6 +311,8 @@ func (b *Base) applyWork(action string) {
 			b.CrashesUsed++
 		} else {
 			b.FaultsUsed++
+			b.FaultLog = append(b.FaultLog, faultFeature(spec[:j], spec[j+1:]))
+			sort.Strings(b.FaultLog)
 		}
 	}
 	parts := strings.SplitN(body, ":", 2)
@@ -344,6 +352,19 @@ func (b *Base) applyWork(action string) {
 	if b.API.Crashed() {
 		b.Restart()
 	}
+}
+
+// faultFeature turns a call id (verb/resource/name[/sub]#n) and a fault kind into a feature.
+func faultFeature(id, kind string) string {
+	if i := strings.IndexByte(id, '#'); i >= 0 {
+		id = id[:i]
+	}
+	parts := strings.Split(id, "/")
+	out := parts[0] + "/" + parts[1]
+	if len(parts) > 3 {
+		out += "/" + parts[3]
+	}
+	return "fault:" + out + "=" + kind
 }
 
 // Calls returns the API calls of the last work step.
@@ -391,6 +412,7 @@ type keyDump struct {
 	Queues  map[string]interface{}                `json:"queues"`
 	Budget  [2]int                                `json:"budget_used"`
 	Stale   []string                              `json:"stale_seen"`
+	Faults  []string                              `json:"faults"`
 	Extra   interface{}                           `json:"extra,omitempty"`
 }
 
@@ -424,6 +446,7 @@ func (b *Base) dump() keyDump {
 		d.Stale = append(d.Stale, r)
 	}
 	sort.Strings(d.Stale)
+	d.Faults = b.FaultLog
 	// Collect the resource versions in use per object identity.
 	rvs := map[string]map[int64]bool{}
 	note := func(id string, raw []byte) {
@@ -516,6 +539,7 @@ type baseSnap struct {
 	hook     map[string]*sim.InformerSnapshot
 	queues   map[string]*sim.QueueSnapshot
 	faults   int
+	faultLog []string
 	crashes  int
 	stale    map[string]bool
 	restarts int
@@ -548,7 +572,7 @@ func (b *Base) Snapshot() interface{} {
 		clock: b.Now(), api: b.API.Snapshot(),
 		ctrl: map[string]*sim.InformerSnapshot{}, hook: map[string]*sim.InformerSnapshot{},
 		queues: map[string]*sim.QueueSnapshot{},
-		faults: b.FaultsUsed, crashes: b.CrashesUsed, stale: map[string]bool{}, restarts: b.Restarts,
+		faults: b.FaultsUsed, faultLog: append([]string(nil), b.FaultLog...), crashes: b.CrashesUsed, stale: map[string]bool{}, restarts: b.Restarts,
 	}
 	for _, inf := range b.Ctx.Set.All() {
 		s.ctrl[inf.Resource] = inf.Snapshot()
@@ -588,6 +612,7 @@ func (b *Base) Restore(x interface{}) {
 		b.Queues[qn].Restore(s.queues[qn])
 	}
 	b.FaultsUsed, b.CrashesUsed, b.Restarts = s.faults, s.crashes, s.restarts
+	b.FaultLog = append([]string(nil), s.faultLog...)
 	b.StaleSeen = map[string]bool{}
 	for k := range s.stale {
 		b.StaleSeen[k] = true
